@@ -59,6 +59,32 @@ def safe(fn, *a):
         return None, f"{type(e).__name__}: {e}\n{traceback.format_exc()[-1500:]}"
 
 
+def _raised_inside_implementation(exc):
+    """True when the innermost frame of the exception is a file of the implementation under test: the harness called
+    the library in a way that works on the unchanged tree (every check passes there) and the library raised."""
+    repo = os.path.realpath(os.environ.get("MOUETTE_REPO", "/repo"))
+    tb = exc.__traceback__
+    last = None
+    while tb is not None:
+        last = tb.tb_frame.f_code.co_filename
+        tb = tb.tb_next
+    return bool(last) and os.path.realpath(last).startswith(os.path.join(repo, "mouette"))
+
+
+def safe_probe(pid, what, fn, case):
+    """Like `safe`, for callbacks that drive the implementation: an exception raised *inside the implementation* while the
+    harness inspects it is returned as a finding (third component), not as a harness error."""
+    try:
+        return fn(case), None, None
+    except Exception as e:  # noqa
+        txt = f"{type(e).__name__}: {e}\n{traceback.format_exc()[-1500:]}"
+        if _raised_inside_implementation(e):
+            return None, None, {"key": f"{pid}/{what}/implementation-raises/{type(e).__name__}",
+                                "what": f"the implementation raised {type(e).__name__} where the {what} of this case succeeds on the unchanged tree",
+                                "detail": txt[-700:]}
+        return None, txt, None
+
+
 class Result:
     def __init__(self):
         self.findings = []      # (case, finding)
@@ -80,10 +106,14 @@ def run_cases(mod, cases, res, want_samples=4):
     staged = []
     for case in cases:
         res.evaluations += 1
-        obs, err = safe(mod.impl_observe, case)
+        obs, err, fnd = safe_probe(mod.PID, "observation", mod.impl_observe, case)
+        if fnd:
+            res.findings.append((case, fnd)); continue
         if err:
             res.harness_errors.append((case, "impl_observe: " + err)); continue
-        fs, err = safe(mod.oracle, case)
+        fs, err, fnd = safe_probe(mod.PID, "oracle", mod.oracle, case)
+        if fnd:
+            res.findings.append((case, fnd)); continue
         if err:
             res.harness_errors.append((case, "oracle: " + err)); continue
         for f in fs:
